@@ -199,7 +199,9 @@ def subst(term, old, new):
 
 
 def strip_cast(t):
-    while t[0] == 'cast':
+    """remove value-preserving casts of a u32 / usize quantity (to usize, u64, u32, u128, i64, i128); a narrowing cast (`as u8`, `as u16`, `as i32`,
+    `as f32`) stays in place, so the comparison with the expected term fails and the truncation is reported"""
+    while t[0] == 'cast' and t[2].replace(' ', '') in ('usize', 'u64', 'u32', 'u128', 'i64', 'i128'):
         t = t[1]
     return t
 
@@ -227,6 +229,14 @@ def check_target_count(rep, term, ent, modP, where):
                             ('struct {@location(0), @location(2)}', [loc(0), loc(2)], 3), ('struct {@location(3)}', [loc(3)], 4), ('struct {@builtin}', [bi], 0),
                             ('struct {@builtin, @location(1), @builtin}', [bi, loc(1), bi], 2), ('struct {@location(2), @location(0)}', [loc(2), loc(0)], 3)):
         cases.append((label, None, V('naga::TypeInner::Struct', members=[member(b) for b in ms], span=0), want))
+    if rep.tier == 'thorough':
+        # bounded-exhaustive: every member sequence of length <= 4 over {no binding, builtin, @location(0..4)}
+        import itertools
+        alphabet = [('-', None), ('b', bi)] + [(str(n), loc(n)) for n in range(5)]
+        for ln in range(1, 5):
+            for combo in itertools.product(alphabet, repeat=ln):
+                locs = [int(c[0]) for c in combo if c[0].isdigit()]
+                cases.append(('struct{' + ','.join(c[0] for c in combo) + '}', None, V('naga::TypeInner::Struct', members=[member(c[1]) for c in combo], span=0), (max(locs) + 1) if locs else 0))
     for label, binding, inner, want in cases:
         fr = V('naga::FunctionResult', ty='h', binding=None if binding in (None, 'NONE') else binding)
         result = None if binding == 'NONE' else ('some', fr)
